@@ -13,11 +13,12 @@ Layers
   selection / zero-block embedding, real/imag stacking, `np.block([[r,-i],[i,r]])`;
 * partial transpose and projector of `detect_real_matrix_subspace_rank_one` /
   `get_real_bipartite_numerical_range`; the Hermitian part used by `get_matrix_numerical_range`;
-* the decision layer (`<`, `>` against thresholds); the comparison of
-  `detect_real_matrix_subspace_rank_one` itself is regenerated from the source
-  (`Generated/Thresholds20.lean`).
+* the decision layer (`<`, `>` against thresholds); the comparisons of `detect_real_matrix_subspace_rank_one`,
+  `has_rank_hierarchical_method` and `is_ABC_completely_entangled_subspace` themselves are regenerated from the source
+  (`Generated/Thresholds20.lean`; since the repair 561406a the last two compare the smallest eigenvalue of the Gram matrix,
+  `np.linalg.eigvalsh(matAAT)[0] > zero_eps`).
 
-Not modelled (contracts): `np.linalg.svd`, `np.linalg.eigh`, `scipy.linalg.lu`, `eigsh`,
+Not modelled (contracts): `np.linalg.svd`, `np.linalg.eigh`, `scipy.linalg.lu`, `eigvalsh`, `eigsh`,
 `scipy.optimize.minimize_scalar/root_scalar`; the Gell-Mann transform itself is C16's model.
 -/
 import NumqiModel.Scalar
@@ -310,7 +311,7 @@ end nr
 
 /-! ## 6. decision layer -/
 
-/-- `np.abs(np.diag(U)).min() > zero_eps` (`_hierarchy.py:300,350`, `_misc.py:27`) -/
+/-- `np.abs(np.diag(U)).min() > zero_eps` of `is_vector_linear_independent` (`_misc.py:27`) -/
 def luCertifies {α : Type} [LT α] [DecidableRel (α := α) (· < ·)] (minAbsDiagU zeroEps : α) : Bool :=
   decide (zeroEps < minAbsDiagU)
 
